@@ -122,12 +122,16 @@ func (f *frame) callKeyOf(in ssa.Instruction) string {
 }
 
 func (f *frame) callClauses(in ssa.Instruction, kind string) []*Clause {
-	if f.con == nil || len(f.con.Calls) == 0 {
+	con := f.con
+	if con == nil {
+		con = f.callCon
+	}
+	if con == nil || len(con.Calls) == 0 {
 		return nil
 	}
 	key := f.callKeyOf(in)
 	var out []*Clause
-	for _, c := range f.con.Calls {
+	for _, c := range con.Calls {
 		if c.Kind == kind && fmt.Sprintf("%s#%d", c.CallName, c.CallOrd) == key {
 			out = append(out, c)
 			if f.e.attached == nil {
@@ -178,7 +182,7 @@ func (f *frame) callEnv(in ssa.Instruction, c *ssa.CallCommon, args []Val, h *He
 // callSiteClauses evaluates the `call Name#k assert ...` and `call Name#k label L` clauses attached to this call.
 func (f *frame) callSiteClauses(in ssa.Instruction, c *ssa.CallCommon, args []Val, pc string, h *Heap) {
 	e := f.e
-	if f.con == nil || len(f.con.Calls) == 0 {
+	if (f.con == nil || len(f.con.Calls) == 0) && (f.callCon == nil || len(f.callCon.Calls) == 0) {
 		return
 	}
 	for _, cl := range f.callClauses(in, "call-label") {
@@ -217,6 +221,7 @@ func (f *frame) staticCall(in ssa.Instruction, callee *ssa.Function, args, binds
 	if inScope && callee.Blocks != nil {
 		if f.depth < inlineMaxDepth && w.inlinable(callee) && !f.onStack(callee) {
 			e.inlined[funcKey(callee)]++
+			e.inlineCon = con // call-site clauses of an inlined function are checked in every caller's context
 			rets, rpc, rh, _ := e.execP(f, callee, args, binds, pc, h.clone(), nm+"/", false, f.depth+1, nil, f.tags, f.safety)
 			*h = *rh
 			if rpc == "false" {
